@@ -1014,6 +1014,18 @@ func skipMarkOnlySubGraphs(w *World, r *Report, rule string) {
 					return ok && lk.CommaOk && lk.X == ssa.Value(sgi)
 				}) {
 					okm = true
+					// … under that membership alone: a further condition (the task's own flag, a counter) loses the mark on
+					// the second interrupt of the same nested graph
+					isMember := func(g guard) bool {
+						e, ok := g.cond.(*ssa.Extract)
+						if !ok {
+							return false
+						}
+						lk, ok := e.Tuple.(*ssa.Lookup)
+						return ok && lk.CommaOk && lk.X == ssa.Value(sgi)
+					}
+					extra := extraGuards(mu.Block(), isMember, guardIsLoopCond(hSub))
+					r.Check(len(extra) == 0, rule, hSub.Name()+": the skip mark depends on sub-graph membership only", mu.Pos(), "no further condition", fmt.Sprintf("the mark is set only under %v as well: a nested graph that interrupts a second time before finishing is saved without the mark (its task was restored with the flag set), so the next resume runs the node's state pre-handler again and its state updates are applied twice", extra))
 				} else {
 					r.Fail(rule, hSub.Name()+": skip mark outside the sub-graph arm", mu.Pos(), "a node that is not an interrupted sub-graph (e.g. a rerun node, whose pre-handler must rebuild its input from state) is marked to skip its pre-handler")
 				}
